@@ -1096,7 +1096,7 @@ impl GlobalInferenceCtx<'_> {
                     let new_ty = match &self.bodies[expr] {
                         Expr::IntLiteral(num) => match *previous_ty {
                             Ty::IInt(0) if *num > i32::MAX as u64 => Ty::IInt(64).into(),
-                            Ty::UInt(0) if *num > u32::MAX as u64 => Ty::UInt(64).into(),
+                            Ty::UInt(0) if *num > i32::MAX as u64 => Ty::UInt(64).into(),
                             _ => continue,
                         },
                         Expr::Ref {
